@@ -141,6 +141,7 @@ func corr(seed uint64, n int) {
 	}
 	corrExtra(&id, hx.NewRng(seed^0xe1), n/4)
 	corrRecords(&id, hx.NewRng(seed^0x4ec), n/2)
+	corrAc3(&id, hx.NewRng(seed^0xac3), n/4)
 	// malformed / out-of-scope stream
 	g2 := &gen{r: hx.NewRng(seed ^ 0xc19c19)}
 	iBudget = n / 8
